@@ -8,6 +8,7 @@ import XalanModel.Containers.PListProofs
 import XalanModel.Containers.PListClearProofs
 import XalanModel.Containers.PListAllocProofs
 import XalanModel.Containers.PListHistoryProofs
+import XalanModel.Containers.PListSpliceProofs
 import XalanModel.Containers.DOMStringProofs
 import XalanModel.Containers.DOMStringCompareProofs
 import XalanModel.Containers.ObjCacheProofs
@@ -790,6 +791,25 @@ example : PL.PWF plistSampleHeap plistSampleList [2, 3] [4] where
 example : (PL.clear plistSampleHeap plistSampleList).map
     (fun r => (PL.toList r.1 r.2, PL.nodesOf r.1 r.2, PL.freeOf r.1 r.2, r.2.head)) = some ([], [], [3, 2, 4], 1) := by
   decide
+
+/-- **splice(pos, *this, it) on the heap** (one node moved inside a list, any two places): the six pointer
+writes of `PL.splice` — unlink `m`, then link it before `p`, reading `p.prev` only after the unlinking, as the C++
+does — succeed, turn the ring through `A ++ m :: B` into the ring through `A' ++ m :: B'` (where `A' ++ B'` is the
+ring without `m`, split at the target position, `p` the node there or the head node for `end()`), in both
+directions; every value, every address, the free chain and the heap size are unchanged.  Composes
+`plist_ring_unlink` and `plist_ring_link`. -/
+theorem plist_splice_same_refines (h : PHeap α) (l : PL) (A B A' B' fs : List Nat) (m p : Nat) (P1 : List Nat)
+    (w : PL.PWF h l (A ++ m :: B) fs) (hsplit : A ++ B = A' ++ B') (hB' : l.head :: B'.reverse = P1 ++ [p]) :
+    ∃ h', PL.splice h l p m = some (h', l) ∧ PL.PWF h' l (A' ++ m :: B') fs ∧ h'.valOf = h.valOf ∧
+      h'.nodes.length = h.nodes.length :=
+  PL.splice_same_refines h l A B A' B' fs m p P1 w hsplit hB'
+
+/-- non-vacuity / a computed instance on the sample heap (ring 2,3): moving node 3 in front of node 2, and
+node 2 to `end()` -/
+example : ((PL.splice plistSampleHeap plistSampleList 2 3).map fun r => (PL.nodesOf r.1 r.2, PL.nodesBack r.1 r.2,
+    PL.toList r.1 r.2, PL.freeOf r.1 r.2)) = some ([3, 2], [2, 3], [8, 7], [4]) := by decide
+example : ((PL.splice plistSampleHeap plistSampleList 1 2).map fun r => (PL.nodesOf r.1 r.2, PL.nodesBack r.1 r.2,
+    PL.toList r.1 r.2, PL.freeOf r.1 r.2)) = some ([3, 2], [2, 3], [8, 7], [4]) := by decide
 
 /-- **XalanList at pointer level, history**: from the freshly constructed list object (no head node, no free
 chain) in any heap, every sequence of `push_back` / `push_front` / `pop_front` / `pop_back` / `clear()` /
